@@ -32,7 +32,8 @@ PROPERTY = {
     "suites": [{"name": "sequence", "pkg": "internal/db/sequence", "files": ["zz_verif_c14.go"], "common": ["intrinsics", "kvmodel"], "jobs": jobs},
                dict(_c15.PROPERTY["suites"][0], name="routing", jobs=routing_jobs),
                dict(_c20.SAVE_SUITE, name="nac", jobs=nac_jobs, redirects=_c20.API_REDIR, files=_c20.SAVE_FILES + ["zz_verif_c20api.go", "zz_verif_c10api.go", "zz_verif_c14nac.go"], common=["intrinsics", "kvmodel", "dagenv", "kvtxn"])],
-    "bounds": {"replicator routing (O2)": "2 replicators, 2 collections, 2 (thorough 3) configuration steps, then a restart (new server, loadAndPublishReplicators) or none", "stored counter": "any uint64 < 2^63 or absent", "Next calls before restart": "<= 3", "Next calls after restart": "1..3"},
+    "bounds": {"node access control (O3)": "configured and enabled node, 1-2 (thorough 1-4) DisableNAC / ReEnableNAC calls by the node's own identity, restart with either start-command setting; json of the description is a box",
+               "replicator routing (O2)": "2 replicators, 2 collections, 2 (thorough 3) configuration steps, then a restart (new server, loadAndPublishReplicators) or none", "stored counter": "any uint64 < 2^63 or absent", "Next calls before restart": "<= 3", "Next calls after restart": "1..3"},
     "assumptions": ["the system store behaves like the documented corekv contract (kvmodel)", "restart = a new Sequence object over the same store content"],
     "outside_claim": ["everything else in the statement: descriptions, indexes, schema, p2p collection subscriptions are rebuilt from GraphQL/JSON/CBOR state; crash points inside badger"],
 }
